@@ -2,6 +2,8 @@ import MCHap.Model.Loci
 import Mathlib.Data.List.Basic
 import Mathlib.Data.List.Nodup
 import Mathlib.Data.List.Range
+import Mathlib.Data.List.Forall2
+import Mathlib.Data.List.Sort
 import Mathlib.Tactic
 
 /-! Helper lemmas for C12 (round trip of `encode_haplotypes` / `format_haplotypes`). -/
@@ -138,5 +140,193 @@ theorem filter_range_mem_eq {offs : List ℕ} {n : ℕ} (hs : offs.Pairwise (· 
   · intro a
     simp only [List.mem_filter, List.mem_range, decide_eq_true_eq]
     exact ⟨fun h => h.2, fun h => ⟨hb a h, h⟩⟩
+
+/-! ### formatting arbitrary valid index vectors (the other direction) -/
+
+/-- the variant stored at offset `j` -/
+def lookVariant (variants : List Variant) (j : ℕ) : Variant :=
+  (variants.find? (fun v => v.1 == j)).getD (0, [])
+
+theorem lookVariant_of_mem : ∀ {variants : List Variant}, (variants.map (·.1)).Nodup →
+    ∀ {v : Variant}, v ∈ variants → lookVariant variants v.1 = v
+  | [], _, v, hv => by simp at hv
+  | w :: vs, hnd, v, hv => by
+    simp only [List.map_cons, List.nodup_cons] at hnd
+    rcases List.mem_cons.mp hv with rfl | hv'
+    · simp [lookVariant]
+    · have hne : w.1 ≠ v.1 := by
+        intro he
+        exact hnd.1 (he ▸ List.mem_map.mpr ⟨v, hv', rfl⟩)
+      have ih := lookVariant_of_mem hnd.2 hv'
+      simp only [lookVariant, List.find?_cons] at ih ⊢
+      have : (w.1 == v.1) = false := by simpa using hne
+      simp only [this]
+      exact ih
+
+theorem charAt_map_range (g : ℕ → Char) {n i : ℕ} (hi : i < n) :
+    charAt ((List.range n).map g) i = g i := by
+  simp [charAt, List.getD_eq_getElem?_getD, hi]
+
+/-- the allele number haplotype `row` carries at the SNV with offset `j` -/
+def rowFun (variants : List Variant) (row : List ℤ) (j : ℕ) : ℕ :=
+  (row.getD ((variants.map (·.1)).idxOf j) 0).toNat
+
+/-- a row of non-negative entries is the image of a function of the (distinct) offsets -/
+theorem row_eq_map {variants : List Variant} (hnd : (variants.map (·.1)).Nodup) {row : List ℤ}
+    (hlen : row.length = variants.length) (hnn : ∀ x ∈ row, 0 ≤ x) :
+    row = variants.map (fun v => ((rowFun variants row v.1 : ℕ) : ℤ)) := by
+  apply List.ext_getElem
+  · simp [hlen]
+  · intro i h1 h2
+    have hi : i < variants.length := by simpa using h2
+    have hidx : (variants.map (·.1)).idxOf (variants[i]).1 = i := by
+      have := hnd.idxOf_getElem i (by simpa using hi)
+      simpa using this
+    simp only [List.getElem_map, rowFun, hidx]
+    have : row.getD i 0 = row[i] := by
+      simp [List.getD_eq_getElem?_getD, List.getElem?_eq_getElem h1]
+    rw [this, Int.toNat_of_nonneg (hnn _ (List.getElem_mem h1))]
+
+/-- filling the template of a locus with one character per (strictly increasing) offset -/
+theorem fillTemplate_on_template {seq : Seq} {offs : List ℕ} {t : List (Option Char)}
+    (hs : offs.Pairwise (· < ·)) (ht : templateSequence seq offs = some t) (f : ℕ → Char) :
+    fillTemplate t (offs.map f)
+      = some ((List.range seq.length).map (fun i => if i ∈ offs then f i else charAt seq i)) := by
+  unfold templateSequence at ht
+  split at ht
+  · rename_i hb
+    have hb' : ∀ j ∈ offs, j < seq.length := by simpa [List.all_eq_true] using hb
+    have ht' := (Option.some.inj ht).symm
+    have h1 : t = (List.range seq.length).map
+        (fun i => if (decide (i ∈ offs)) = true then none else some (charAt seq i)) := by
+      rw [ht']
+      apply List.map_congr_left
+      intro i _
+      by_cases hi : i ∈ offs <;> simp [hi]
+    have h2 := fillTemplate_map (List.range seq.length) (fun i => decide (i ∈ offs)) (charAt seq) f
+    rw [filter_range_mem_eq hs hb'] at h2
+    rw [h1, h2]
+    congr 1
+    apply List.map_congr_left
+    intro i _
+    by_cases hi : i ∈ offs <;> simp [hi]
+  · exact absurd ht (by simp)
+
+/-- formatting the row `v ↦ a v.offset` and reading it back with the same locus -/
+theorem format_row (seq : Seq) (variants : List Variant) (gap : Char) (t : List (Option Char))
+    (hs : (variants.map (·.1)).Pairwise (· < ·))
+    (ht : templateSequence seq (variants.map (·.1)) = some t)
+    (a : ℕ → ℕ) (ha : ∀ v ∈ variants, a v.1 < v.2.length) :
+    (match variantChars gap (variants.map (·.2)) (variants.map (fun v => ((a v.1 : ℕ) : ℤ))) with
+      | none => none
+      | some cs => fillTemplate t cs)
+    = some ((List.range seq.length).map (fun i =>
+        if i ∈ variants.map (·.1) then (lookVariant variants i).2.getD (a i) gap else charAt seq i)) := by
+  have hnd : (variants.map (·.1)).Nodup := hs.imp (fun h => Nat.ne_of_lt h)
+  have hvc : variantChars gap (variants.map (·.2)) (variants.map (fun v => ((a v.1 : ℕ) : ℤ)))
+      = some (variants.map (fun v => v.2.getD (a v.1) gap)) := by
+    apply variantChars_map
+    intro v hv
+    have hlt := ha v hv
+    unfold alleleChar
+    have : ¬ (((a v.1 : ℕ) : ℤ) < 0) := by omega
+    simp [this, List.getD_eq_getElem?_getD, List.getElem?_eq_getElem hlt]
+  have hargs : variants.map (fun v => v.2.getD (a v.1) gap)
+      = (variants.map (·.1)).map (fun j => (lookVariant variants j).2.getD (a j) gap) := by
+    rw [List.map_map]
+    apply List.map_congr_left
+    intro v hv
+    simp [lookVariant_of_mem hnd hv]
+  simp only [hvc]
+  rw [hargs]
+  exact fillTemplate_on_template hs ht _
+
+/-- a locus as `assemble` holds it: strictly increasing in-range offsets, duplicate-free allele tuples -/
+structure ValidLocus (seq : Seq) (variants : List Variant) : Prop where
+  sorted : (variants.map (·.1)).Pairwise (· < ·)
+  bounded : ∀ v ∈ variants, v.1 < seq.length
+  nodup : ∀ v ∈ variants, v.2.Nodup
+
+/-- an index vector with one valid allele number per SNV -/
+def ValidRow (variants : List Variant) (row : List ℤ) : Prop :=
+  List.Forall₂ (fun (a : ℤ) (v : Variant) => 0 ≤ a ∧ a < v.2.length) row variants
+
+theorem ValidRow.spec {variants : List Variant} (hnd : (variants.map (·.1)).Nodup) {row : List ℤ}
+    (h : ValidRow variants row) :
+    row = variants.map (fun v => ((rowFun variants row v.1 : ℕ) : ℤ)) ∧
+      ∀ v ∈ variants, rowFun variants row v.1 < v.2.length := by
+  obtain ⟨hlen, hget⟩ := List.forall₂_iff_get.mp h
+  have hnn : ∀ x ∈ row, 0 ≤ x := by
+    intro x hx
+    obtain ⟨i, hi, rfl⟩ := List.getElem_of_mem hx
+    exact (hget i hi (hlen ▸ hi)).1
+  have hrow := row_eq_map hnd hlen hnn
+  refine ⟨hrow, ?_⟩
+  intro v hv
+  obtain ⟨i, hi, rfl⟩ := List.getElem_of_mem hv
+  have h1 : i < row.length := hlen ▸ hi
+  have hidx : (variants.map (·.1)).idxOf (variants[i]).1 = i := by
+    have := hnd.idxOf_getElem i (by simpa using hi)
+    simpa using this
+  have hg := hget i h1 hi
+  simp only [List.get_eq_getElem] at hg
+  have : row.getD i 0 = row[i] := by
+    simp [List.getD_eq_getElem?_getD, List.getElem?_eq_getElem h1]
+  simp only [rowFun, hidx, this]
+  omega
+
+/-- the string `format_haplotypes` renders for `row` -/
+def formatted (seq : Seq) (variants : List Variant) (gap : Char) (row : List ℤ) : Seq :=
+  (List.range seq.length).map (fun i =>
+    if i ∈ variants.map (·.1) then (lookVariant variants i).2.getD (rowFun variants row i) gap
+    else charAt seq i)
+
+theorem templateSequence_isSome {seq : Seq} {variants : List Variant}
+    (hb : ∀ v ∈ variants, v.1 < seq.length) :
+    ∃ t, templateSequence seq (variants.map (·.1)) = some t := by
+  unfold templateSequence
+  have : ((variants.map (·.1)).all (· < seq.length)) = true := by
+    simp only [List.all_eq_true, decide_eq_true_eq, List.mem_map]
+    rintro j ⟨v, hv, rfl⟩
+    exact hb v hv
+  simp [this]
+
+theorem formatHaplotypes_eq (seq : Seq) (variants : List Variant) (rows : List (List ℤ)) (gap : Char)
+    (hL : ValidLocus seq variants) (hr : ∀ row ∈ rows, ValidRow variants row) :
+    formatHaplotypes seq variants rows gap = some (rows.map (formatted seq variants gap)) := by
+  obtain ⟨t, ht⟩ := templateSequence_isSome hL.bounded
+  have hnd : (variants.map (·.1)).Nodup := hL.sorted.imp (fun h => Nat.ne_of_lt h)
+  unfold formatHaplotypes
+  simp only [ht]
+  apply optAll_map_some
+  intro row hrow
+  obtain ⟨hrow_eq, ha⟩ := (hr row hrow).spec hnd
+  have := format_row seq variants gap t hL.sorted ht (rowFun variants row) ha
+  rw [← hrow_eq] at this
+  exact this
+
+theorem formatted_length (seq : Seq) (variants : List Variant) (gap : Char) (row : List ℤ) :
+    (formatted seq variants gap row).length = seq.length := by
+  simp [formatted]
+
+/-- the character rendered at the offset of a variant -/
+theorem charAt_formatted_variant {seq : Seq} {variants : List Variant} (gap : Char) {row : List ℤ}
+    (hL : ValidLocus seq variants) (hr : ValidRow variants row) {v : Variant} (hv : v ∈ variants) :
+    ∃ h : rowFun variants row v.1 < v.2.length,
+      charAt (formatted seq variants gap row) v.1 = v.2[rowFun variants row v.1] := by
+  have hnd : (variants.map (·.1)).Nodup := hL.sorted.imp (fun h => Nat.ne_of_lt h)
+  have hlt := (hr.spec hnd).2 v hv
+  refine ⟨hlt, ?_⟩
+  unfold formatted
+  rw [charAt_map_range _ (hL.bounded v hv)]
+  have hm : v.1 ∈ variants.map (·.1) := List.mem_map.mpr ⟨v, hv, rfl⟩
+  simp [hm, lookVariant_of_mem hnd hv, List.getD_eq_getElem?_getD, List.getElem?_eq_getElem hlt]
+
+theorem charAt_formatted_other {seq : Seq} {variants : List Variant} (gap : Char) (row : List ℤ)
+    {i : ℕ} (hi : i < seq.length) (hn : i ∉ variants.map (·.1)) :
+    charAt (formatted seq variants gap row) i = charAt seq i := by
+  unfold formatted
+  rw [charAt_map_range _ hi]
+  simp [hn]
 
 end MCHap
